@@ -84,6 +84,34 @@ W = [
      'exclusion projection") although including _id is always allowed',
      D, [], [{'$project': {'a': 0, '_id': 1}}],
      [{'_id': 0, 'k': 1}, {'_id': 1, 'k': 1}, {'_id': 2, 'k': 2}]),
+    ('bucketcrosstype', '$bucket compares a groupBy value that is no number (null, a string, a '
+     'date, ...) with the boundaries by Python < (bisect): TypeError; MongoDB places every value '
+     'in the BSON order, so such a value falls outside the numeric boundaries: default bucket',
+     [{'_id': 0, 'a': 'x'}, {'_id': 1, 'a': 5}], [],
+     [{'$bucket': {'groupBy': '$a', 'boundaries': [0, 10], 'default': 'other'}}],
+     [{'count': 1, '_id': 0}, {'count': 1, '_id': 'other'}]),
+    ('bucketboolnum', '$bucket counts a boolean groupBy value as the number 0 / 1 (Python: bool '
+     'is an int); for MongoDB a boolean sorts after every number: default bucket',
+     [{'_id': 0, 'a': True}], [],
+     [{'$bucket': {'groupBy': '$a', 'boundaries': [0, 10], 'default': 'other'}}],
+     [{'count': 1, '_id': 'other'}]),
+    ('bucketdefaulttype', '$bucket places the default bucket by Python comparison with the last '
+     'boundary (TypeError -> last): a null default is emitted last although MongoDB sorts the '
+     'buckets by _id, null before every number (a boolean default is placed, and merged, as the '
+     'number 0 / 1)',
+     [{'_id': 0, 'a': 5}, {'_id': 1, 'a': 50}], [],
+     [{'$bucket': {'groupBy': '$a', 'boundaries': [0, 10], 'default': None}}],
+     [{'count': 1, '_id': None}, {'count': 1, '_id': 0}]),
+    ('bucketdupbounds', '$bucket accepts equal neighbouring boundaries (sorted(b) == b); MongoDB '
+     'requires them strictly ascending and rejects the stage',
+     D, [], [{'$bucket': {'groupBy': '$a', 'boundaries': [0, 5, 5, 10], 'default': 'o'}}], 'E'),
+    ('bucketdefaultinside', '$bucket accepts a numeric default inside [lowest, highest boundary) '
+     '(and merges it with the bucket of the same _id when it equals a boundary); MongoDB requires '
+     'it below the lowest or at / above the highest boundary and rejects the stage',
+     D, [], [{'$bucket': {'groupBy': '$a', 'boundaries': [0, 10], 'default': 5}}], 'E'),
+    ('bucketgroupbyconst', '$bucket accepts a constant groupBy (every document in one bucket); '
+     'MongoDB requires a $-prefixed path or an expression object and rejects the stage',
+     D, [], [{'$bucket': {'groupBy': 5, 'boundaries': [0, 10], 'default': 'o'}}], 'E'),
 ]
 
 
